@@ -97,6 +97,31 @@ func (s Seg) appendTo(out []byte) []byte {
 		for i := 0; i < n; i++ {
 			out = append(out, out[len(out)-d])
 		}
+	case "farmix":
+		// short copies from far back (distance in (A/2, A]) interleaved with fresh random bytes:
+		// produces match tokens with long distance codes and many extra bits
+		maxd := s.A
+		if maxd < 16 {
+			maxd = 32768
+		}
+		end := len(out) + n
+		for len(out) < end {
+			if len(out) > maxd/2+16 && x.next()%3 != 0 {
+				d := maxd/2 + 1 + int(x.next()%uint64(maxd/2))
+				if d > len(out) {
+					d = len(out)
+				}
+				l := 3 + int(x.next()%10)
+				for i := 0; i < l && len(out) < end; i++ {
+					out = append(out, out[len(out)-d])
+				}
+			} else {
+				k := 1 + int(x.next()%6)
+				for i := 0; i < k && len(out) < end; i++ {
+					out = append(out, byte(x.next()>>24))
+				}
+			}
+		}
 	case "fib":
 		// Fibonacci-skewed symbol frequencies: symbol k appears ~F(k) times.
 		// Emits symbols in a shuffled-by-stride order.
@@ -188,7 +213,7 @@ func DrawLen(t *rapid.T, label string, max int) int {
 
 // DrawSeg draws one segment of about n bytes.
 func DrawSeg(t *rapid.T, n int) Seg {
-	kinds := []string{"rand", "rand", "text", "text", "run", "period", "repeat", "repeat", "fib", "near", "inc"}
+	kinds := []string{"rand", "rand", "text", "text", "run", "period", "repeat", "repeat", "fib", "near", "inc", "farmix"}
 	k := rapid.SampledFrom(kinds).Draw(t, "kind")
 	s := Seg{Kind: k, N: n, Seed: rapid.Uint64Range(0, 1<<20).Draw(t, "seed")}
 	switch k {
@@ -204,6 +229,8 @@ func DrawSeg(t *rapid.T, n int) Seg {
 		}
 	case "repeat":
 		s.A = rapid.SampledFrom(distances).Draw(t, "dist")
+	case "farmix":
+		s.A = rapid.SampledFrom([]int{4096, 32768, 32768, 20000}).Draw(t, "maxdist")
 	case "fib":
 		s.A = rapid.IntRange(2, 30).Draw(t, "nsym")
 	case "inc":
@@ -216,6 +243,16 @@ func DrawSeg(t *rapid.T, n int) Seg {
 func DrawRecipe(t *rapid.T, max int) Recipe {
 	if max >= 140000 && rapid.IntRange(0, 15).Draw(t, "sparse") == 0 {
 		return drawSparse(t, max)
+	}
+	if max >= 100000 && rapid.IntRange(0, 11).Draw(t, "far") == 0 {
+		// random lead-in, then a long stretch of far short copies
+		lead := rapid.SampledFrom([]int{17000, 33000, 40000}).Draw(t, "far_lead")
+		n := rapid.IntRange(2000, 90000).Draw(t, "far_n")
+		if lead+n > max {
+			n = max - lead
+		}
+		return Recipe{Segs: []Seg{{Kind: "rand", N: lead, A: 256, Seed: rapid.Uint64Range(0, 1<<20).Draw(t, "seed")},
+			{Kind: "farmix", N: n, A: rapid.SampledFrom([]int{32768, 32768, 4096, 20000}).Draw(t, "maxdist"), Seed: rapid.Uint64Range(0, 1<<20).Draw(t, "seed2")}}}
 	}
 	return DrawRecipeN(t, DrawLen(t, "total", max))
 }
